@@ -7,7 +7,7 @@ S = os.path.join(ROOT, 'seeded')
 runs = {}
 for f in sorted(glob.glob(os.path.join(S, 'results_*.json'))):
     name = os.path.basename(f)[len('results_'):-len('.json')]
-    wave = 'w2-' if 'wave2' in name else ''
+    wave = 'w2-' if 'wave2' in name else ('w3-' if 'wave3' in name else '')
     for r in json.load(open(f)):
         q = r.get('quick', {}); t = r.get('thorough', {})
         if not r.get('detected'):
